@@ -46,10 +46,11 @@ def ladder_decl(rng, ty):
     end point of each shape is decided by exactly one branch and nothing before or after it masks a wrong comparison."""
     rty = ty or "i32"
     if rty.startswith("f"):
-        base = pick(rng, [-7.5, -1.0, 0.0, 0.25, 2.0])
-        step = pick(rng, [0.5, 1.0, 2.5])
-        c = [base + i * step for i in range(9)]
-        gap = step / 2
+        # dyadic values, or tenths (not exactly representable in f32: 0.1, 0.3, ...)
+        dyadic, tenths = [(-7.5, 0.5), (-1.0, 1.0), (0.0, 2.5), (0.25, 0.5), (2.0, 1.0)], [(0.1, 0.2), (-0.7, 0.2), (1.3, 0.4)]
+        base, step = pick(rng, tenths if rty == "f64" else dyadic + tenths)
+        c = [round(base + i * step, 4) for i in range(9)]
+        gap = round(step / 2, 4)
     else:
         lo, hi = rustfmt.INT_BOUNDS[rty]
         step = rng.randint(2, 5)
@@ -57,9 +58,9 @@ def ladder_decl(rng, ty):
         c = [base + i * step for i in range(9)]
         gap = 1
     shapes = [[{"r": "bounds", "start": None, "end": c[0], "incl": True}],
-              [{"r": "bounds", "start": c[0] + gap, "end": c[1], "incl": False}],
+              [{"r": "bounds", "start": round(c[0] + gap, 4) if rty.startswith("f") else c[0] + gap, "end": c[1], "incl": False}],
               [{"r": "bounds", "start": c[1], "end": c[2], "incl": True}],
-              [{"r": "exact", "v": c[3]}, {"r": "bounds", "start": c[4], "end": c[5], "incl": True}, {"r": "exact", "v": c[5] + gap}],
+              [{"r": "exact", "v": c[3]}, {"r": "bounds", "start": c[4], "end": c[5], "incl": True}, {"r": "exact", "v": round(c[5] + gap, 4) if rty.startswith("f") else c[5] + gap}],
               [{"r": "bounds", "start": c[6], "end": c[7], "incl": False}],
               [{"r": "bounds", "start": c[8], "end": None, "incl": False}]]
     if rng.random() < 0.5:
@@ -293,8 +294,13 @@ def e2e_stage(res, tier, seed):
         for j, ty in enumerate(gen.RANGE_TYPES + [None], start=len(types)):
             node = ladder_decl(rng, ty)
             decls.append(("r%d" % j, node))
+            # counts fixed through a reference: every exact value and every end point of the ladder
+            ends = []
+            for br in node["branches"]:
+                for sp in (br["specs"] or []):
+                    ends += [sp["v"]] if sp["r"] == "exact" else [x for x in (sp["start"], sp["end"]) if x is not None]
             cs = counts_for(node, rng)
-            fkc["r%d" % j] = rng.sample(cs, min(len(cs), 6))
+            fkc["r%d" % j] = sorted(set(ends)) + rng.sample(cs, min(len(cs), 4))
         p, fks = build_project(rng, decls, fkc)
         c = e2e.ProbeCrate("c04_%d" % ci, p)
         for key, node in decls:
